@@ -406,9 +406,21 @@ inductive RunOpt where
   | chain (n : Nat)              -- rest.WithChain(chain.New(c1 … cn)): `svr.ngin.chain = chn` (replaces the native chain)
   | cors                         -- rest.WithCors(): `SetNotAllowedHandler(cors.NotAllowedHandler(...))`, then the router is
                                  -- wrapped: `corsRouter.ServeHTTP` answers EVERY `OPTIONS` request itself (204)
+  | corsHeaders                  -- rest.WithCorsHeaders(headers...): the same wiring, another header function
+  | customCors                   -- rest.WithCustomCors(middlewareFn, notAllowedFn, origin...): the same wiring again
+  | fileServer (dir : String) (names : List String)
+                                 -- rest.WithFileServer(dir, fs): the router is wrapped in a `fileServingRouter`; `names` = the
+                                 -- file names `fs.Open` accepts
   | router                       -- rest.WithRouter(router.NewRouter()): `server.router = router` (a FRESH patRouter:
                                  -- whatever an earlier option installed on the old router is gone, including the
                                  -- engine's not-found wrapper that `NewServer` puts in front of the user's options)
+  deriving Repr, DecidableEq
+
+/-- a router wrapper of rest/server.go (both embed the `httpx.Router` they wrap: `Handle` / `SetNotFoundHandler` /
+`SetNotAllowedHandler` pass through to the patRouter, only `ServeHTTP` is intercepted). -/
+inductive Wrapper where
+  | cors                                        -- `corsRouter`: `cors.Middleware(fn, origins...)` around `Router.ServeHTTP`
+  | files (dir : String) (names : List String)  -- `fileServingRouter`: `fileserver.Middleware(dir, fs)`
   deriving Repr, DecidableEq
 
 /-- `rest.Server{ngin, router}` as far as routing goes. -/
@@ -416,7 +428,7 @@ structure Server where
   router : PatRouter := {}
   groups : List Group := []      -- `engine.routes`, in `AddRoutes` order
   chain : Option Nat := none     -- `engine.chain` (`WithChain`): the number of middlewares of the custom chain
-  cors : Bool := false           -- `server.router` is a `corsRouter` around the patRouter (`WithCors`)
+  wrappers : List Wrapper := []  -- what `server.router` is wrapped in, OUTERMOST first (`WithCors*`, `WithFileServer`)
 
 /-- the handler `cors.NotAllowedHandler(nil, origins...)` (a reserved id): it answers 404 (204 for `OPTIONS`). -/
 def corsNA : H := 204404
@@ -424,9 +436,12 @@ def corsNA : H := 204404
 def Server.apply (s : Server) : RunOpt → Server
   | .notFound h => { s with router := { s.router with notFound := some (.engine h) } }
   | .notAllowed h => { s with router := { s.router with notAllowed := h } }
-  | .router => { s with router := {}, cors := false }
+  | .router => { s with router := {}, wrappers := [] }
   | .chain n => { s with chain := some n }
-  | .cors => { s with router := { s.router with notAllowed := some corsNA }, cors := true }
+  | .cors => { s with router := { s.router with notAllowed := some corsNA }, wrappers := .cors :: s.wrappers }
+  | .corsHeaders => { s with router := { s.router with notAllowed := some corsNA }, wrappers := .cors :: s.wrappers }
+  | .customCors => { s with router := { s.router with notAllowed := some corsNA }, wrappers := .cors :: s.wrappers }
+  | .fileServer dir names => { s with wrappers := .files dir names :: s.wrappers }
 
 /-- `rest.NewServer(c, opts...)`: `opts = append([]RunOption{WithNotFoundHandler(nil)}, opts...)`, applied in order. -/
 def newServer (opts : List RunOpt) : Server :=
@@ -491,12 +506,43 @@ def Server.start (s : Server) : Server × StartResult :=
 /-- who answers a request that reaches `server.router.ServeHTTP`. -/
 inductive SrvResponse where
   | preflight                    -- `corsRouter`: `cors.Middleware` wrote 204 for an `OPTIONS` request; the patRouter is NOT asked
+  | file (name : String)         -- `fileServingRouter`: `http.FileServer` served the file; the patRouter is NOT asked
   | router (r : Response)        -- the patRouter answers
   deriving Repr, DecidableEq
 
-/-- `server.router.ServeHTTP`: with `WithCors` the CORS middleware sits in front of the patRouter. -/
-def Server.serveHTTP (s : Server) (method path : String) : SrvResponse :=
-  if s.cors && method == "OPTIONS" then .preflight else .router (s.router.serveHTTP method path)
+/-- `strings.HasPrefix`. -/
+def hasPrefix (s pre : String) : Bool := pre.toList.isPrefixOf s.toList
+
+/-- `ensureTrailingSlash` of rest/internal/fileserver. -/
+def ensureTrailingSlash (dir : String) : String := if dir.toList.getLast? == some '/' then dir else dir ++ "/"
+
+/-- `http.FileSystem.Open` of the harness' file system: one leading '/' is ignored. -/
+def fileName (rem : String) : String := if hasPrefix rem "/" then String.ofList (rem.toList.drop 1) else rem
+
+/-- `r.URL.Path[len(dir/):]` -/
+def fileRem (dir path : String) : String := String.ofList (path.toList.drop (ensureTrailingSlash dir).length)
+
+/-- `createServeChecker`: `r.Method == http.MethodGet && strings.HasPrefix(r.URL.Path, dir/) && fileChecker(r.URL.Path[len(dir/):])`
+— on the RAW request path (nothing is cleaned here). -/
+def canServe (dir : String) (names : List String) (method path : String) : Option String :=
+  if method == "GET" && hasPrefix path (ensureTrailingSlash dir) && names.contains (fileName (fileRem dir path))
+  then some (fileName (fileRem dir path)) else none
+
+/-- the wrappers, outermost first, around the patRouter's `ServeHTTP`: each one either answers itself or passes the
+request on UNCHANGED. -/
+def wrapServe (pr : PatRouter) (method path : String) : List Wrapper → SrvResponse
+  | [] => .router (pr.serveHTTP method path)
+  | .cors :: ws => if method == "OPTIONS" then .preflight else wrapServe pr method path ws
+  | .files dir names :: ws =>
+    match canServe dir names method path with
+    | some f => .file f
+    | none => wrapServe pr method path ws
+
+/-- `server.router.ServeHTTP`. -/
+def Server.serveHTTP (s : Server) (method path : String) : SrvResponse := wrapServe s.router method path s.wrappers
+
+/-- a `corsRouter` is in effect. -/
+def Server.cors (s : Server) : Bool := s.wrappers.contains .cors
 
 /-- `rest.MustNewServer(c, opts...)`: `NewServer(c, opts...)` (the error branch — `c.SetUp()` failing — ends the process). -/
 def mustNewServer (opts : List RunOpt) : Server := newServer opts
